@@ -260,3 +260,36 @@ def check_C20(tier, seed):
                            'TLC: token strings with separators and brackets before a stray token (MC_Parse suite C20); valid programs '
                            'made invalid by a stray token at every position with mixtures of newline/CRLF/; and multi-line literals, '
                            'truncations: message must name the token and its physical line (ErrMsg of SQGrammar.tla)')
+
+
+def check_C14(tier, seed):
+    import random
+    rep = Report('C14', tier, seed)
+    devs = engine.open_deviations()
+    quick = tier == 'quick'
+    rep.notes['rule'] = ('TLC: model-based exploration of one list and one dict under an alphabet of 297 operations (push pop insert remove '
+                         'read write compound-write del get index_of keys/values/items len in; keys 0 1 1.0 1.7 -1 -1.5 5 "1" "a" True '
+                         'None), all sequences up to MaxOps; algebraic laws (WriteRead, ReadGet, DelGone, FailedNoChange, IndexLaw, '
+                         'Observers, ParserError classes) evaluated in every reachable container state for every operation; code: one '
+                         'path to each explored state plus every/sampled next operation, and random sequences up to length 12, one eval '
+                         'call per operation on persistent names, validated by TLC; distinct = distinct operation sequences')
+    res = engine.model_check(rep, 'MC_C14.tla', 'MC_C14.cfg', consts={'MaxOps': '3' if quick else '4'}, timeout=900 if quick else 3400,
+                             coverage=not quick)
+    rep.exhaustive = True
+    engine.model_check(rep, 'MC_C14.tla', 'MC_C14.cfg', consts={'MaxOps': '2'}, deviations=['MutGetNoCast'], expect_violation=True, timeout=600)
+    scns = []
+    if not rep.machinery:
+        paths = [r['hist'] for r in res.printed() if 'hist' in r]
+        rng = random.Random(seed)
+        ops = families.c14_all_ops()
+        rep.notes['direction_a'] = {'container_states_explored_by_tlc': len(paths)}
+        pick = rng.sample(paths, min(len(paths), 700 if quick else 6000))
+        for p in pick:
+            # the path to the state, then a few operations of the alphabet applied in that state
+            for o in rng.sample(ops, 2 if quick else 3):
+                scns.append(families.c14_scenario(list(p) + [o]))
+        rep.notes['direction_a']['replayed'] = len(scns)
+    scns += families.c14_random(seed, 600 if quick else 6000)
+    cases = [c for c in vmrun.run_scenarios(scns) if 'harness_error' not in c]
+    engine.judge_cases(rep, cases, devs, what='operation sequence')
+    return rep.finish()
